@@ -48,7 +48,7 @@ class Prop(PropBase):
         n = 2000 if tier == "quick" else 40000
         for i in range(n):
             nops = rng.choice([2, 3, 5, 8, 13, 21, 34, 60]) if tier == "quick" else rng.choice([3, 8, 21, 60, 150, 400])
-            line = tg.history(rng, nops, sized=True, ops_weights=DUP_WEIGHTS)
+            line = tg.history(rng, nops, sized=True, ops_weights=DUP_WEIGHTS, inputs=(i % 3 == 0))
             cs.append(Case(line, tag="history", cfgs=tg.configs(rng, 2)))
         # correspondence only: moves to positions OUTSIDE the declared size (also repeated), where the oracle stops judging
         for i in range(500 if tier == "quick" else 6000):
@@ -58,4 +58,6 @@ class Prop(PropBase):
         shc = ["%d %d %d %d 7 4" % (wv, e, r, z) for wv in range(3) for e in range(3) for r in range(6) for z in range(4)]
         for line, cf in tg.short_histories(3 if tier == "quick" else 4, shc):
             cs.append(Case(line, sweep="short-histories", cfgs=cf))
+        for line, cf in tg.short_histories_b(2 if tier == "quick" else 3, shc):
+            cs.append(Case(line, sweep="short-histories-b", cfgs=cf))
         return cs
